@@ -108,6 +108,8 @@ func asm14PlanExec(c *Ctx, op string) {
 				res = fmt.Sprintf("refused=%d", i.tag)
 			}
 		}
+	case err != nil && strings.Contains(err.Error(), "more than one input at path") && catOf(err) == "rio-assembly-invalid":
+		res = "duplicate"
 	case err != nil:
 		res = "err " + catOf(err)
 	default:
@@ -168,7 +170,18 @@ func asm14PlanExec(c *Ctx, op string) {
 			}
 		}
 	}
-	if shouldRefuse != strings.HasPrefix(res, "refused") && !strings.HasPrefix(res, "err") {
+	dup := false
+	for i := range ins {
+		for j := range ins {
+			if i != j && ins[i].path == ins[j].path {
+				dup = true
+			}
+		}
+	}
+	if dup != (res == "duplicate") && !strings.HasPrefix(res, "err") && !strings.HasPrefix(res, "refused") {
+		c.PropFail("order-dependent", "two inputs share a path; the assembly answers "+res+" (listing order would decide what the tree shows)", op)
+	}
+	if shouldRefuse != strings.HasPrefix(res, "refused") && !strings.HasPrefix(res, "err") && res != "duplicate" {
 		if shouldRefuse {
 			c.PropFail("mount-rule-missed", "an input lies inside a mount input's path but the assembly was accepted", op)
 		} else {
@@ -444,6 +457,14 @@ func asm14RealExec(c *Ctx, op string) {
 						}
 					}
 				}
+			}
+		}
+	}
+	// two inputs at one path: no listing order is "the" order, the assembly describes no tree
+	for i := range ins {
+		for j := range ins {
+			if i != j && strings.Join(comps(ins[i].path), "/") == strings.Join(comps(ins[j].path), "/") && wantInvalid == "" {
+				wantInvalid = "duplicate path"
 			}
 		}
 	}
@@ -724,6 +745,7 @@ func asm14Engine(c *Ctx) {
 		{"/a:1", "/ab:0"}, {"/a:1", "/a/b:0"}, {"/data:1", "/data-extra:0", "/data/sub:0"}, {"/:1", "/x:0"}, {"/a:0", "/a/b:1", "/a/b/c:0"},
 		{"/a b:1", "/a!:0", "/a:0"},
 		// two mounts, the second sorting between the first and the first's children ('.', '-', ' ', '!' < '/')
+		{"/a:0", "/a:0"}, {"/a:1", "/a:0"}, {"/a:0", "/b:0", "/a:1"}, {"/:0", "/:1"}, {"/a:1", "/a/b:0", "/a/b:0"},
 		{"/a:1", "/a.b:1", "/a/b:0"}, {"/data:1", "/data-extra:1", "/data/sub:0"}, {"/a:1", "/a b:1", "/a!:1", "/a/b/c:0"}, {"/a:1", "/a-b:1", "/a/b:1"},
 	}
 	emitPlan := func(items []string) {
@@ -770,6 +792,7 @@ func asm14Engine(c *Ctx) {
 		"/=w7,/hop/x=w0", "/=w7,/hop/osub/y=w0", "/=w7,/rel/x=w0", "/a=w7,/a/hop/x=rw", "/=w7,/hop2/x=w5",
 		"/=w0,/d=w6", "/=w1,/d=w6,/d/deep/z=w0", "/a=w5,/a/d5=w6", "/=w6", "/x/y=w6",
 		"/=w9,/pre/new/x=w0,/zlnk/q=w0", "/=w9,/pre/new/x=w0", "/=w9,/pre/new/deeper/x=ro,/zlnk/q/r=w1", "/=w9,/pre/existing/k=w0,/zz=w0,/zlnk/q=rw",
+		"/x=w0,/x=w1", "/=w0,/=w1", "/x=w0,/x=rw", "/x=ro,/x=w0", "/a=w0,/a/b=w1,/a/b=w5", "/x=w6,/x=w6",
 		"/a=rw,/a-b=ro,/a/x=w0", "/data=rw,/data-extra=rw,/data/sub=w5", "/a=rw,/a.b=rw,/a/b=w1", "/a=ro,/a-b=rw,/a/b/c=w0",
 		"/=w1,/lnk=w0", "/=w1,/lnk=ro", "/=w1,/lnk=rw", "/=w2,/abs=w0", "/=w2,/abs=rw", "/=w3,/up=ro", "/a=w1,/a/lnk=rw", "/a=w2,/a/abs=ro",
 	}
